@@ -21,9 +21,24 @@ SUPPORTED = {"type", "enum", "minimum", "maximum", "exclusiveMinimum", "exclusiv
 def gen_leafy(rng):
     m = rng.random()
     if m < 0.12:
-        return {"enum": rng.sample(["x", "y", 1, 2, 7, None, "zz", "long-value"], rng.choice([1, 2, 3]))}
+        return {"enum": rng.sample(["x", "y", 1, 2, 7, None, "zz", "long-value", "#", "##", "###", ""], rng.choice([1, 2, 3]))}
     if m < 0.17:
-        return {"const": rng.choice(["x", 1, 7, None, False])}
+        return {"const": rng.choice(["x", 1, None, None, False, 0, ""])}
+    if m < 0.27:
+        # numbers around zero and below it, with and without multipleOf
+        d = {"type": rng.choice(["number", "integer"])}
+        b = rng.randint(-9, 9)
+        k = rng.random()
+        if k < 0.4:
+            d[rng.choice(["maximum", "exclusiveMaximum"])] = b
+        elif k < 0.7:
+            d[rng.choice(["minimum", "exclusiveMinimum"])] = b
+        else:
+            d["minimum"] = b
+            d["maximum"] = b + rng.randint(0, 7)
+        if rng.random() < 0.6:
+            d["multipleOf"] = rng.choice([2, 3, 5, 7])
+        return d
     d = {}
     t = rng.random()
     if t < 0.6:
@@ -49,9 +64,22 @@ def gen_leafy(rng):
     return d
 
 
+def gen_tuple(rng):
+    """arrays with prefixItems and items, alone or as a conjunction of two tuple schemas of different length"""
+    a = {"type": "array", "prefixItems": [gen_leafy(rng) for _ in range(rng.choice([1, 2, 2]))], "items": gen_leafy(rng)}
+    if rng.random() < 0.5:
+        return a
+    b = {"prefixItems": [gen_leafy(rng) for _ in range(rng.choice([1, 1, 3]))]}
+    if rng.random() < 0.4:
+        b["items"] = gen_leafy(rng)
+    return {"allOf": [a, b] if rng.random() < 0.6 else [b, a]}
+
+
 def gen_c01(rng, depth, refs, allow_anyof=True):
     if rng.random() < 0.04:
         return rng.random() < 0.8
+    if depth > 0 and rng.random() < 0.08:
+        return gen_tuple(rng)
     if depth <= 0:
         return gen_leafy(rng)
     d = gen_leafy(rng)
@@ -70,8 +98,14 @@ def gen_c01(rng, depth, refs, allow_anyof=True):
                 d["minItems"] = rng.choice([0, 1, 2, 3])
         elif k < 0.8:
             d["prefixItems"] = [gen_c01(rng, depth - 1, refs, allow_anyof) for _ in range(rng.choice([1, 2]))]
-            if rng.random() < 0.4:
+            if rng.random() < 0.6:
                 d["items"] = gen_c01(rng, depth - 1, refs, allow_anyof)
+            if rng.random() < 0.3:
+                # conjunction of two tuple schemas of different length (the shorter one is padded with its items)
+                other = {"prefixItems": [gen_leafy(rng) for _ in range(rng.choice([1, 3]))]}
+                if rng.random() < 0.5:
+                    other["items"] = gen_leafy(rng)
+                d = {"allOf": [d, other] if rng.random() < 0.5 else [other, d]}
         else:
             d["contains"] = gen_c01(rng, depth - 1, refs, allow_anyof)
             if rng.random() < 0.4:
@@ -376,7 +410,7 @@ def run(pid, tier):
         ck.violation("coq-obligation", "coq/Properties/%s.v no longer checks: %s" % (pid, ck.obl["log"][-300:]),
                      {"theorem": ck.obl["file"]}, found_input=False)
     rng = random.Random(ck.seed * 733 + 41)
-    n = 200 if tier == "quick" else 4000
+    n = 300 if tier == "quick" else 4000
     docs = []
     while len(docs) < n:
         d = gen_doc(rng, allow_anyof=(pid == "C01"))
